@@ -663,8 +663,10 @@ def check_C08(tr):
     if c.zst:
         # zero-sized elements have no identity: the ledger is a count
         m, d = sum(moved.values()), sum(dropped.values())
-        if m + d != c.src_len():
-            bad.append("%d zero-sized elements: %d moved out, %d dropped by the iterator" % (c.src_len(), m, d))
+        # a wrapped iterator: the elements to account for are those it produced (what it never yielded is its own business)
+        total = len(produced) if produced is not None else c.src_len()
+        if m + d != total:
+            bad.append("%d zero-sized elements: %d moved out, %d dropped by the iterator" % (total, m, d))
         return bad
     universe = produced if produced is not None else c.src_values()
     for v in universe:
